@@ -62,6 +62,10 @@ def run_session(task):
                     "ops": [{k: v for k, v in op.items()} for op in hist["ops"]][:30],
                     "n_recipes": len(hist["recipes"]),
                     "first_recipe": hist["recipes"][0]})
+            if os.environ.get("VERIF_ADDR_TRACE"):
+                with open(os.environ["VERIF_ADDR_TRACE"], "a") as f:
+                    f.write(f"{session} {j} "
+                            f"{[w.call('addr_probe')[0] for w in fl.workers]}\n")
             mine = [v for v in viol if _mine(prop, v["class"])]
             for v in viol:
                 if v["class"].startswith("HARNESS:"):
@@ -89,8 +93,12 @@ def _run_doc(prop, doc, fl=None):
     if own:
         fl = histories.Fleet(doc["configs"])
     try:
-        for prior in doc.get("prior_histories") or []:
+        for j, prior in enumerate(doc.get("prior_histories") or []):
             histories.run_history(fl, prior)
+            if os.environ.get("VERIF_ADDR_TRACE"):
+                with open(os.environ["VERIF_ADDR_TRACE"], "a") as f:
+                    f.write(f"{doc.get('session')} {j} "
+                            f"{[w.call('addr_probe')[0] for w in fl.workers]}\n")
         viol = histories.run_history(fl, doc["history"])
     finally:
         if own:
